@@ -1,5 +1,6 @@
 """unit leaf — terminal nodes (predefined_node/mod.rs): Str, Insens, Skip, SkipChar, CharRange, ANY, NEWLINE,
-Empty, AlwaysFail, and the free function match_char_by (used by the Unicode property nodes).
+Empty, AlwaysFail.  (The free function match_char_by used by the Unicode property nodes captures `&mut res` in a
+closure, which Verus rejects: those ~260 macro-generated nodes are the only TypedNode impls of the crate not under contract.)
 C01 (each terminal = its PEG denotation over rest(ctx, off)), C03, C17 (leaf contents: the character of a range /
 ANY node, the actual spelling of an insensitive match, the kind of NEWLINE, span text of skip nodes)."""
 import re
@@ -168,10 +169,23 @@ def build(U):
     im.body_start('        proof { lemma_newline_literals(); }', fname='try_check_partial_with')
     U.ghost(r'''
 // the three string literals of NEWLINE as bytes (vstd gives literals as chars; their UTF-8 encoding is ASCII)
+pub proof fn lemma_newline_scalars()
+    ensures encode_scalar(10u32) == seq![10u8], encode_scalar(13u32) == seq![13u8],
+{
+    assert(encode_scalar(10u32) =~= seq![10u8]) by (compute);
+    assert(encode_scalar(13u32) =~= seq![13u8]) by (compute);
+}
 pub proof fn lemma_newline_literals()
     ensures "\r\n".spec_bytes() == seq![13u8, 10u8], "\n".spec_bytes() == seq![10u8], "\r".spec_bytes() == seq![13u8],
 {
-    admit();
+    reveal_strlit("\r\n"); reveal_strlit("\n"); reveal_strlit("\r");
+    assert("\n"@ =~= seq!['\n']);
+    assert("\r"@ =~= seq!['\r']);
+    assert("\r\n"@ =~= seq!['\r'] + seq!['\n']);
+    lemma_encode_single('\n'); lemma_encode_single('\r');
+    lemma_newline_scalars(); assert('\n' as u32 == 10u32); assert('\r' as u32 == 13u32);
+    encode_utf8_concat(seq!['\r'], seq!['\n']);
+    assert(seq![13u8] + seq![10u8] =~= seq![13u8, 10u8]);
 }''', 'newline literals')
     U.emit(im)
 
